@@ -53,6 +53,16 @@ CHECKS = {
         "jobs": [rapid("codec", "TestC06Dispatch", 6000, 40000), rapid("codec", "TestC06UnknownObjectType", 2000, 20000, shards=4)],
         "assumptions": ["a response item with operation 0 has no payload (outside the domain)", "tag 0 excluded from opaque payloads"],
     },
+    "C08": {
+        "level": "exploration",
+        "technique": "stateful property-based testing (rapid) of client/handler fault scripts against a real server inside testing/synctest bubbles (fake clock, quiescence), generator-owned schedule through a yield-point hook, goroutine census invariant, crash isolation by journalled cases; plus HTTP transport cases and a real-time stress run",
+        "level_text": "Generated-history exploration: scripts over several client connections (whole/partial/garbage/undecodable messages, pipelines, half close, close during a handler or a blocked response write, stalled readers, and a close placed exactly between loading the outgoing channel and handing over the response) run against kmipserver.Server on an in-memory listener inside a synctest bubble, so that 'nothing is in progress' is a detectable state and time is free. After every step the responses must match the model one-to-one and in order, the census of accept/handleConn/readloop/writeloop goroutines must equal 1 + 3 per live connection, and a probe connection must be served; at the end nothing may remain (a blocked goroutine makes the bubble fail). A panic in a library goroutine kills the worker: the journalled case is confirmed in fresh processes and reported. HTTP bodies and a real-time multi-connection stress (-race in thorough) complete it.",
+        "level_note": "Interleavings are explored at the granularity of quiescence points plus the hooked window, not all schedules; after garbage only crash-freedom, census and cleanup are checked; a half-closed connection is not required to receive outstanding responses.",
+        "jobs": [rapid("server", "TestC08Availability", 1500, 8000, timeout_s={"quick": 600, "thorough": 1700}),
+                 rapid("server", "TestC08HTTP", 2000, 20000, shards=4),
+                 dict(rapid("server", "TestC08Stress", 60, 300, shards=4), race=True)],
+        "assumptions": ["handlers that ignore their context keep their connection's goroutine until they return (fake time is advanced past them before the census)"],
+    },
     "C09": {
         "level": "exploration",
         "technique": "exhaustive enumeration of batches up to length 3 by the same generator + property-based testing (rapid) for longer batches, against an executable reference model of KMIP batch semantics",
@@ -148,7 +158,7 @@ CHECKS = {
     },
 }
 
-HOOK_COMMITS = []
+HOOK_COMMITS = ["ae50fd9e01837cb81b3f92cee34dfd8774b5c94f"]
 
 _PENDING = "check not built yet in this session (planned in DESIGN.md); not claimed until its machinery exists"
 NOT_APPLICABLE = {("C%02d" % i): _PENDING for i in range(1, 21) if ("C%02d" % i) not in CHECKS}
